@@ -189,6 +189,7 @@ private theorem httpStreamSend_inv (cfg : Cfg) (st : St) (e : Http.Ev) (hI : Inv
   · exact hI
   · exact inv_of_cur_none _ (maybeRecycle_cur st)
   · exact hI
+  · exact hI
 
 private theorem wsStreamSend_inv (cfg : Cfg) (st : St) (e : Ws.Ev) (hI : Inv st) : Inv (wsStreamSend cfg st e).1 := by
   cases e <;> simp only [wsStreamSend]
@@ -198,6 +199,7 @@ private theorem wsStreamSend_inv (cfg : Cfg) (st : St) (e : Ws.Ev) (hI : Inv st)
   · exact hI
   · exact hI
   · exact inv_of_cur_none _ (maybeRecycle_cur st)
+  · exact hI
   · exact hI
   · exact hI
 
@@ -340,6 +342,9 @@ private theorem onLibEvBody_inv (cfg : Cfg) (st : St) (o0 : List Out) (e : LibEv
   | wsData d evs =>
     simp only [onLibEvBody] at h
     (repeat' split at h) <;> (try (cases h; done))
+    · simp only [Option.some.injEq, Prod.mk.injEq] at h
+      obtain ⟨rfl, _⟩ := h
+      exact runWsEvs_inv cfg _ _ (setObj_inv _ _ _ hI)
     · simp only [Option.some.injEq, Prod.mk.injEq] at h
       obtain ⟨rfl, _⟩ := h
       exact runWsEvs_inv cfg _ _ (setObj_inv _ _ _ hI)
